@@ -1,12 +1,15 @@
 #!/bin/sh
-# runs, for every stored seeded change, the check of the property it breaks against a scratch worktree with the patch applied; prints
+# runs, for every stored seeded change, the check recorded in its meta.json as 'regression_check' (the property's own quick check if that
+# catches it, otherwise the check that does) against a scratch worktree with the patch applied; prints
 # one line per seeded change. A change whose own demonstration no longer fails on HEAD + patch is reported as NEUTRALISED (a later fix
 # removed the path it needs).  Usage: tools/seed_all.sh [tier]
 TIER=${1:-quick}
 cd "$(dirname "$0")/.."
 for D in "$(pwd)"/seeded/*/; do
   ID=$(basename $D)
-  P=$(/venv/bin/python -c "import json;print(json.load(open('$D/meta.json'))['breaks_property'])")
+  P=$(/venv/bin/python -c "import json;m=json.load(open('$D/meta.json'));r=m.get('regression_check') or {};print(r.get('property') or m['breaks_property'])")
+  RT=$(/venv/bin/python -c "import json;m=json.load(open('$D/meta.json'));r=m.get('regression_check') or {};print(r.get('tier') or 'quick')")
+  [ "$TIER" = "quick" ] && [ "$RT" = "thorough" ] && { echo "$ID $P SKIPPED(thorough tier only)"; continue; }
   T=$(mktemp -d /tmp/mabw_seedall.XXXXXX)
   git -C /repo worktree add -q --detach "$T" HEAD
   if git -C $T apply $D/patch.diff 2>/dev/null || git -C $T apply -3 $D/patch.diff 2>/dev/null; then
